@@ -28,26 +28,37 @@ def sibling_arms(ctx) -> None:
             cpu_body, gpu_body = (node.body, node.orelse)
             if (t.attr == "is_cuda") != neg:
                 cpu_body, gpu_body = gpu_body, cpu_body
-            if not (len(cpu_body) == 1 and len(gpu_body) == 1):
+            # an arm is one assignment, possibly preceded by temporaries that only feed it
+            def _arm(body):
+                if not body or not isinstance(body[-1], ast.Assign):
+                    return None
+                for st in body[:-1]:
+                    if not (isinstance(st, ast.Assign) and len(st.targets) == 1 and isinstance(st.targets[0], ast.Name)
+                            and st.targets[0].id in util.single_assignments(f)):
+                        return None
+                return body[-1]
+            a, b = _arm(cpu_body), _arm(gpu_body)
+            if a is None or b is None:
                 continue
-            a, b = cpu_body[0], gpu_body[0]
-            if not (isinstance(a, ast.Assign) and isinstance(b, ast.Assign)):
-                continue
-            call = b.value
+            call = util.inline_locals(f, b.value)
             if not (isinstance(call, ast.Call) and util.call_name(prog, f.module, call, f) == MATMUL):
                 continue
             n += 1
             same_target = util.text(a.targets[0]) == util.text(b.targets[0])
-            mm = a.value
+            mm = util.inline_locals(f, a.value)
             if not (isinstance(mm, ast.BinOp) and isinstance(mm.op, ast.MatMult)):
                 raise AnalysisError(f"DEVICE: CPU arm at {f.loc(a)} is not a matrix product: {util.text(a)}")
-            ctx.require(len(call.args) == 2, f"DEVICE: {util.text(call)} does not have 2 positional arguments")
-            l_ok = util.text(mm.left) == util.text(call.args[0])
-            r_ok = util.text(mm.right) == util.text(call.args[1])
+            callee = prog.lookup(MATMUL)
+            pn = [x.arg for x in callee.node.args.args]
+            left, right = util.arg_of(call, callee, pn[0]), util.arg_of(call, callee, pn[1])
+            ctx.require(left is not None and right is not None and len(pn) == 2,
+                        f"DEVICE: {util.text(call)} does not bind both operands of {MATMUL}")
+            l_ok = util.text(mm.left) == util.text(left)
+            r_ok = util.text(mm.right) == util.text(right)
             tensor_is_tested = util.text(t.value) == util.text(mm.right)
             ok = same_target and l_ok and r_ok
-            ctx.ob("DEVICE-arms", f"{f.qualname}|{util.akey(a.value, f, 60)}", f.loc(node), ok,
-                   f"CPU arm {util.text(a.value, 60)} and batched arm take the same operands" if ok else
+            ctx.ob("DEVICE-arms", f"{f.qualname}|{util.akey(mm, f, 60)}", f.loc(node), ok,
+                   f"CPU arm {util.text(mm, 60)} and batched arm take the same operands" if ok else
                    f"CPU arm computes {util.text(a, 80)} but the non-CPU arm computes {util.text(b, 100)} — the two "
                    f"device paths disagree (the non-CPU arm is executed by no test in this sandbox)")
     ctx.require(n >= 2, f"DEVICE: {n} cpu/batched sibling sites found, 2 confirmed by hand")
